@@ -190,6 +190,27 @@ def law_sweep(ctx, em):
             pw, wn = em.perfrequency2perwavenumber(Bf, grid)
             law("density:planck-forms-wn", [np.max(rel(pw, em.planck_wavenumber(wn, Tk))) > 1e-9 * (1 + 1 / xk.min())], [grid[:1], [Tk]],
                 "perfrequency2perwavenumber maps planck onto planck_wavenumber")
+        # multi-dimensional spectra: a stack of Planck spectra for several temperatures (asymmetric in the extra axes)
+        Ts = np.array([80.0, 300.0, 1200.0, 2500.0])[:int(rng.integers(2, 5))]
+        xs_ = H * grid.reshape(-1, 1) / (K * Ts.reshape(1, -1))
+        if xs_.min() > 1e-4 and xs_.max() < 500:
+            for shape in ((m, Ts.size), (m, 1, Ts.size)):
+                Bs = em.planck(grid.reshape(-1, 1), Ts.reshape(1, -1)).reshape(shape)
+                tolk = 1e-9 * (1 + 1 / xs_.min())
+                pm, lam = em.perfrequency2perwavelength(Bs, grid)
+                want = em.planck_wavelength(lam.reshape(-1, 1), Ts.reshape(1, -1)).reshape(shape)
+                law("density:planck-forms-nd", [pm.shape != want.shape or np.max(rel(pm, want)) > tolk], [grid[:1], Ts],
+                    f"perfrequency2perwavelength maps a {shape} stack of planck spectra onto planck_wavelength, spectrum by spectrum")
+                bf, fr = em.perwavelength2perfrequency(want, lam)
+                law("density:planck-forms-nd-back", [bf.shape != Bs.shape or np.max(rel(bf, Bs)) > tolk], [grid[:1], Ts],
+                    f"perwavelength2perfrequency maps a {shape} stack of planck_wavelength spectra onto planck")
+                pw, wn = em.perfrequency2perwavenumber(Bs, grid)
+                wantn = em.planck_wavenumber(wn.reshape(-1, 1), Ts.reshape(1, -1)).reshape(shape)
+                law("density:planck-forms-wn-nd", [pw.shape != wantn.shape or np.max(rel(pw, wantn)) > tolk], [grid[:1], Ts],
+                    f"perfrequency2perwavenumber maps a {shape} stack of planck spectra onto planck_wavenumber")
+                bf, fr = em.perwavenumber2perfrequency(wantn, wn)
+                law("density:planck-forms-wn-nd-back", [bf.shape != Bs.shape or np.max(rel(bf, Bs)) > tolk], [grid[:1], Ts],
+                    f"perwavenumber2perfrequency maps a {shape} stack of planck_wavenumber spectra onto planck")
     # Snell / Fresnel
     n1 = rng.uniform(0.5, 3, n)
     n2 = rng.uniform(0.5, 4, n)
@@ -217,6 +238,22 @@ def law_sweep(ctx, em):
             out.append(("fresnel-brewster", f"Rv != 0 at the Brewster angle {[a, b]}", {"law": "fresnel-brewster", "args": [a, b]}))
         nc = complex(b, float(rng.uniform(0, 2)))
         th2 = em.snell(a, nc, th)
+        # complex n2: n1 sin(t1) = n2 sin(t2c) with a complex t2c; the real angle of refraction psi satisfies
+        # tan(psi) = n1 sin(t1) / Re sqrt(n2^2 - n1^2 sin(t1)^2)  (independent oracle in Python complex arithmetic)
+        import cmath
+        sa = a * math.sin(math.radians(th))
+        q = cmath.sqrt(nc * nc - sa * sa)
+        if q.real > 1e-6 and th > 0:
+            psi = math.degrees(math.atan2(sa, q.real))
+            if not abs(th2 - psi) <= 1e-7 * (1 + abs(psi)):
+                out.append(("snell-law-complex", f"snell({a}, {nc}, {th}) = {th2!r} deg, Snell's law for complex n2 gives {psi!r} deg",
+                            {"law": "snell-law-complex", "args": [a, str(nc), th]}))
+        # ... and continues the real law: an imaginary part of 1e-13 changes nothing visible (away from total reflection)
+        if s1[i] <= b * (1 - 1e-3):
+            thr, thc = em.snell(a, b, th), em.snell(a, complex(b, 1e-13 * b), th)
+            if not abs(thr - thc) <= 1e-6:
+                out.append(("snell-complex-limit", f"snell({a}, {b}+1e-13j*{b}, {th}) = {thc!r} but snell with real n2 = {thr!r}",
+                            {"law": "snell-complex-limit", "args": [a, b, th]}))
         rv, rh = em.fresnel(a, nc, min(th, 89.9))
         if not (abs(rv) <= 1 + 1e-9 and abs(rh) <= 1 + 1e-9):
             out.append(("fresnel-bounded-complex", f"|R| > 1 for complex n2 at {[a, nc, th]}", {"law": "fresnel-bounded-complex", "args": [a, str(nc), th]}))
